@@ -39,6 +39,8 @@ function compile(refjs) {
 
 const isTmplWs = (s) => /^[ \t\n\v\f\r]*$/.test(s)
 
+import { DYN_SLOTS } from './stub_dom.mjs'
+
 // the statement's path algebra (same as oracle/pathres.rs): directory of the referrer or the root, drop '.', pop on '..'
 export function resolveRef(base, rel) {
   let stack = []
@@ -53,6 +55,8 @@ function pushSeg(stack, seg) {
   if (seg === '..') { stack.pop(); return }
   stack.push(seg)
 }
+
+const PLACEHOLDER = () => ({ k: 'v', id: undefined, slot: undefined, kids: [] })
 
 class Renderer {
   constructor(model, D, pool) {
@@ -196,8 +200,12 @@ class Renderer {
     return out
   }
 
-  nodes(list, ctx, out) {
-    for (const n of list) this.node(n, ctx, out)
+  // `sl`: when defined, the nodes are the content of a dynamic-slot component for one slot instance named `sl.name`
+  // (proc_gen_wrapper.ts handleChildrenCreation with a slotElement): text nodes exist only in the default slot, an
+  // element / slotted block only in the slot its `slot` attribute names, everything else becomes a placeholder node;
+  // if-groups, loops, template calls and includes pass the rule on to their content.
+  nodes(list, ctx, out, sl) {
+    for (const n of list) this.node(n, ctx, out, sl)
   }
 
   lpathsOf(file) {
@@ -216,7 +224,7 @@ class Renderer {
     return null
   }
 
-  node(n, ctx, out) {
+  node(n, ctx, out, sl) {
     switch (n.k) {
       case 'comment':
         return
@@ -225,8 +233,10 @@ class Renderer {
         if (!dynamic) {
           const text = n.pieces.map((p) => p.lit).join('')
           if (isTmplWs(text)) return
+          if (sl && sl.name !== '') { out.push(PLACEHOLDER()); return }
           out.push({ k: 't', id: n.id, text })
         } else {
+          if (sl && sl.name !== '') { out.push(PLACEHOLDER()); return }
           const text = n.pieces.map((p) => ('lit' in p ? p.lit : Y(this.ev(p.e, ctx)))).join('')
           out.push({ k: 't', id: n.id, text })
         }
@@ -236,10 +246,18 @@ class Renderer {
         const kids = []
         const depth = ctx.s.length
         for (const r of n.slotRefs || []) { ctx.s.push(ctx.slotValues ? ctx.slotValues[r.name] : undefined); ctx.paths.push(null) }
-        const rec = this.rec(n.attrs, ctx)
         // slot names are strings: static verbatim, dynamic values stringified with null/undefined as ''
-        const slot = n.slot === undefined || n.slot === null ? undefined : this.valStr(n.slot, ctx)
-        this.nodes(n.kids, { ...ctx, slotValues: undefined }, kids)
+        let slot = n.slot === undefined || n.slot === null ? undefined : this.valStr(n.slot, ctx)
+        if (sl) {
+          if (sl.name !== (slot || '')) { ctx.s.length = depth; ctx.paths.length = depth; out.push(PLACEHOLDER()); return }
+          slot = undefined // assigned through the slot element, not through the slot attribute
+        }
+        const rec = this.rec(n.attrs, ctx)
+        if (typeof n.tag === 'string' && n.tag.startsWith('dyn-')) {
+          for (const inst of DYN_SLOTS) this.nodes(n.kids, { ...ctx, slotValues: inst.values }, kids, { name: inst.name })
+        } else {
+          this.nodes(n.kids, { ...ctx, slotValues: undefined }, kids)
+        }
         ctx.s.length = depth
         ctx.paths.length = depth
         out.push({ k: 'e', id: n.id, tag: n.tag, generics: n.generics || {}, slot, rec, kids })
@@ -248,7 +266,7 @@ class Renderer {
       case 'if': {
         for (const br of n.branches) {
           if (br.cond === null || this.truthy(br.cond, ctx)) {
-            this.nodes(br.kids, ctx, out)
+            this.nodes(br.kids, ctx, out, sl)
             return
           }
         }
@@ -271,7 +289,7 @@ class Renderer {
           const depth = ctx.s.length
           ctx.s.push(i in items ? items[i] : undefined, index)
           ctx.paths.push(listPath ? [...listPath, index] : null, null)
-          this.nodes(n.kids, ctx, out)
+          this.nodes(n.kids, ctx, out, sl)
           ctx.s.length = depth
           ctx.paths.length = depth
         }
@@ -280,12 +298,21 @@ class Renderer {
       case 'block': {
         const hasSlot = n.slot !== undefined && n.slot !== null
         const refs = n.slotRefs || []
-        if (!hasSlot && refs.length === 0) { this.nodes(n.kids, ctx, out); return }
+        if (!hasSlot && refs.length === 0) { this.nodes(n.kids, ctx, out, sl); return }
         const depth = ctx.s.length
         for (const r of refs) { ctx.s.push(ctx.slotValues ? ctx.slotValues[r.name] : undefined); ctx.paths.push(null) }
         const kids = []
         const slot = hasSlot ? this.valStr(n.slot, ctx) : undefined
-        this.nodes(n.kids, { ...ctx, slotValues: undefined }, kids)
+        if (hasSlot && sl) {
+          // a slotted block under a dynamic-slot component exists only in the slot it names
+          if (sl.name !== slot) { ctx.s.length = depth; ctx.paths.length = depth; out.push(PLACEHOLDER()); return }
+          this.nodes(n.kids, { ...ctx, slotValues: undefined }, kids)
+          ctx.s.length = depth
+          ctx.paths.length = depth
+          out.push({ k: 'v', id: n.id, slot: undefined, kids })
+          return
+        }
+        this.nodes(n.kids, hasSlot ? { ...ctx, slotValues: undefined } : ctx, kids, hasSlot ? undefined : sl)
         ctx.s.length = depth
         ctx.paths.length = depth
         if (hasSlot) out.push({ k: 'v', id: n.id, slot, kids })
@@ -299,14 +326,14 @@ class Renderer {
         if (!t) return
         const d = n.data === undefined || n.data === null ? '' : this.ev(n.data, ctx)
         const mods = this.modulesOf(t.file)
-        this.nodes(t.body, { file: t.file, d, s: [...mods], paths: this.lpathsOf(t.file) }, out)
+        this.nodes(t.body, { file: t.file, d, s: [...mods], paths: this.lpathsOf(t.file) }, out, sl)
         return
       }
       case 'include': {
         const f = this.model.files[n.path]
         if (!f) return
         const mods = this.modulesOf(n.path)
-        this.nodes(f.body, { file: n.path, d: ctx.d, s: [...mods], paths: this.lpathsOf(n.path) }, out)
+        this.nodes(f.body, { file: n.path, d: ctx.d, s: [...mods], paths: this.lpathsOf(n.path) }, out, sl)
         return
       }
       case 'slot': {
@@ -314,7 +341,7 @@ class Renderer {
         const depth = ctx.s.length
         for (const r of n.slotRefs || []) { ctx.s.push(ctx.slotValues ? ctx.slotValues[r.name] : undefined); ctx.paths.push(null) }
         const rec = this.rec(n.attrs, ctx)
-        const slot = n.slot === undefined || n.slot === null ? undefined : this.valStr(n.slot, ctx)
+        const slot = sl || n.slot === undefined || n.slot === null ? undefined : this.valStr(n.slot, ctx)
         ctx.s.length = depth
         ctx.paths.length = depth
         out.push({ k: 's', id: n.id, name, slot, rec })
